@@ -168,6 +168,7 @@ def c04(F, R):
     e5_formulas.base_formula_rules(F, R)
     e6_generated.generated_rules(F, R, {"ptr"})
     e7_containers.flex_writers(F, R)  # item positions inside a FlexVec (strides, sealed extents) are part of the computed layout
+    e9_witness.witness_rules(F, R)
     FOUNDATION(F, R)
 
 
